@@ -526,11 +526,25 @@ func init() {
 			j := r.intn(i + 1)
 			perm[i], perm[j] = perm[j], perm[i]
 		}
+		// whole families: a chosen function brings in every function of the same opcode (all suffix variants), so
+		// that behaviour depending on what was built before (memoised form selection, shared state keyed too
+		// coarsely) meets the histories that expose it: same opcode, same operand classes, other suffixes
+		family := map[string][]string{}
+		for _, n := range all {
+			if c := ctorByName[n]; c != nil {
+				family[c.OpcConst] = append(family[c.OpcConst], n)
+			}
+		}
 		for _, i := range perm {
 			if len(chosen) >= budget {
 				break
 			}
 			chosen[all[i]] = true
+			if c := ctorByName[all[i]]; c != nil {
+				for _, sib := range family[c.OpcConst] {
+					chosen[sib] = true
+				}
+			}
 		}
 		var sel []string
 		for n := range chosen {
